@@ -933,12 +933,12 @@ def sweep(seed, directory, step, prefix_steps, spec=None, knobs=None, layers=("A
     trial = Trial(seed, directory, spec=spec, knobs=knobs, fault_rate=0.0, layers=[])
     if field:
         trial.spec = {"kind": "field", "sample": field}
-    elif size:
+    elif size and size != "fine-grid":
         trial.spec = workload.gen_spec(trial.rng, size=size)
     trial.draw_setup()
     if field or size:
         # large data: keep the grid fine and the thresholds nominal so that every step has thousands of rows
-        trial.knobs["grid_mm"] = 1.0
+        trial.knobs["grid_mm"] = 0.05 if size == "fine-grid" else 1.0
         trial.knobs["reference_rise_mm"] = trial.knobs["reference_recession_mm"] = None
         if field:
             trial.knobs["thresholds"] = [8.0, 5.0]
@@ -1136,6 +1136,7 @@ LARGE_SWEEP_CASES = [
     ("recession", ("classify", "set-zeta-grid", "rise"), None, "xl"),
     ("rise", ("classify", "set-zeta-grid"), None, "xl"),
     ("classify", (), 2, None),
+    ("set-zeta-grid", ("classify",), 1, "fine-grid"),      # thousands of discrete_zeta rows in one executemany
 ]
 
 TIERS = {
